@@ -33,6 +33,8 @@ def check_search_loops(ctx, prog, tag=""):
             needle = flow.origins(f, c.args[1])
             const_ok = bool(needle) and all(
                 o.kind == "const" and (o.const.get("ty") == "char" or (o.const.get("str") not in (None, ""))) for o in needle)
+            # a constant set of characters: every match is a character, never the empty string
+            const_ok = const_ok or bool(flow.const_char_set(f, c.args[1]))
             guard = None
             keys = {o.key() for o in needle}
             for (sb, taken) in flow.guards(f, h):
